@@ -3,7 +3,7 @@ use std::io::{BufRead, BufReader};
 use std::time::Duration;
 
 use saito_verif_harness::ledger_run::{run_scenario, Scenario};
-use saito_verif_harness::trace::{install_panic_recorder, Trace, Watchdog};
+use saito_verif_harness::trace::{guarded, install_panic_recorder, Trace, Watchdog};
 
 fn arg(args: &[String], name: &str, default: u64) -> u64 {
     args.iter()
@@ -34,7 +34,11 @@ fn main() {
             continue;
         }
         let scn: Scenario = serde_json::from_str(&line).unwrap_or_else(|e| panic!("scenario {}: {}", k, e));
-        run_scenario(&rt, &scn, k, &mut trace, &wd);
+        // a panic of the runner itself (not of a guarded call into the node) ends the scenario, not the run
+        if let Err(p) = guarded(|| run_scenario(&rt, &scn, k, &mut trace, &wd)) {
+            wd.pause();
+            trace.emit(serde_json::json!({"ev": "Abort", "scn": k, "i": 0, "res": format!("Panic:{}", p)}));
+        }
         count += 1;
         if count % 100 == 0 {
             trace.flush();
